@@ -48,3 +48,23 @@ Proof.
   destruct q; cbn [sql_to_Z Z.eqb Pos.eqb]; try (split; reflexivity).
   destruct (d_file d =? 3); [split; reflexivity|]. destruct (d_file d =? 1); split; reflexivity.
 Qed.
+
+(* ---- transfer: read off the translated function directly ---------------------------------------------------------------- *)
+(* the translated _process_connect answers 200 only when the service is RUNNING, its health is GOOD / FIXING / COMPROMISED,
+   the password matches, there is room for another session and the identifier is new; exactly then is a connection recorded *)
+Theorem source_connect_only_with_correct_password : forall os h pm nid n mx ex,
+  let res := DatabaseService_process_connect os h pm nid n mx ex [] in
+  (fst (fst res) = 200 -> os = 1 /\ (h = 1 \/ h = 2 \/ h = 3) /\ pm = true /\ n < mx /\ ex = false) /\
+  (snd (snd res) <> [] -> fst (fst res) = 200).
+Proof.
+  intros os h pm nid n mx ex. unfold DatabaseService_process_connect, IOSoftware_add_connection, Software_set_health_state.
+  destruct (os =? 1) eqn:O; cbn; [|split; intros; [discriminate|contradiction]].
+  apply Z.eqb_eq in O.
+  destruct ((h =? 1) || (h =? 2) || (h =? 3)) eqn:H; [|split; intros; [discriminate|contradiction]].
+  destruct pm; [|split; intros; [discriminate|contradiction]].
+  rewrite Z.geb_leb. destruct (mx <=? n) eqn:M; cbn; [split; intros; [discriminate|contradiction]|].
+  apply Z.leb_gt in M.
+  assert (Hh : h = 1 \/ h = 2 \/ h = 3) by lia.
+  destruct (h =? 4) eqn:H4; [apply Z.eqb_eq in H4; lia|].
+  destruct ex; cbn; split; intros; try discriminate; try contradiction; auto.
+Qed.
